@@ -661,3 +661,28 @@ Proof.
   split; [| vm_compute; reflexivity].
   repeat (apply Forall_cons; [unfold ev_ok, blk_ok; simpl; first [lia | exact I]|]). apply Forall_nil.
 Qed.
+
+
+(** [lib_advances_on_one_branch]: a LIB the node reported earlier is still the block its main
+    chain holds at that height after any further history, and the later LIB is at or above it:
+    one node never reports irreversible blocks on conflicting branches. *)
+Theorem lib_advances_on_one_branch : forall size self evs1 evs2,
+  Forall ev_ok (evs1 ++ evs2) ->
+  let nd1 := run (init_node size self) evs1 in
+  let nd2 := run (init_node size self) (evs1 ++ evs2) in
+  b_id (ls_lib (st_ls (nd_st nd1))) <> -1 ->
+  (exists m, main_at nd2 (lib_no nd1) = Some m /\ k_id m = b_id (ls_lib (st_ls (nd_st nd1)))) /\
+  lib_no nd1 <= lib_no nd2.
+Proof.
+  intros size self evs1 evs2 F nd1 nd2 Hid.
+  assert (F1 : Forall ev_ok evs1) by (apply Forall_app in F; tauto).
+  pose proof (lib_on_main_chain size self evs1 F1) as L. fold nd1 in L.
+  unfold lib_on_main in L. apply orb_true_iff in L. destruct L as [L|L].
+  { apply Z.eqb_eq in L. contradiction. }
+  destruct (main_get (nd_main nd1) (b_no (ls_lib (st_ls (nd_st nd1))))) as [m|] eqn:G; [|discriminate].
+  apply Z.eqb_eq in L.
+  split; [|apply lib_monotone].
+  exists m. split; auto.
+  apply finalized_never_undone; auto.
+  destruct (main_get_some_lt _ _ _ G). unfold lib_no, nd1 in *. lia.
+Qed.
